@@ -140,3 +140,10 @@ func VerifPoison(obj any) {
 		fill(x.value)
 	}
 }
+
+// VerifSetNextStreamID makes the connection's next request use stream id. It
+// stands in for the two thousand million requests it takes to get near the
+// end of the stream id space; call it before any request is made.
+func (c *Conn) VerifSetNextStreamID(id uint32) {
+	atomic.StoreUint32(&c.nextID, id)
+}
